@@ -318,6 +318,11 @@ def may_suspend_fn(p, fn, seen=None):
     if fn in seen:
         return True
     seen = seen | {fn}
+    # a decorator whose wrapper suspends (executor hop, wait_for) makes the decorated operation suspend
+    for d in fn.decorator_list:
+        name = last_attr(d.func if isinstance(d, ast.Call) else d)
+        if name in ("_blocking_io", "with_timeout", "_with_timeout"):
+            return True
     for n in walk_no_nested(fn):
         if isinstance(n, (ast.AsyncWith, ast.AsyncFor)):
             return True
